@@ -213,7 +213,9 @@ func (c30) Run(in string, scratch string) Result {
 	if len(tok) != 9 {
 		return Result{Out: "PARSE-ERROR", Tags: []string{"bad-line"}}
 	}
-	auth, mode, tname, tmpl, payload, mut := tok[0], tok[1], untokBytes(tok[2]), []byte(untokBytes(tok[3])), untokBytes(tok[4]), tok[8]
+	auth, mode, tname, tmpl, payload := tok[0], tok[1], untokBytes(tok[2]), []byte(untokBytes(tok[3])), untokBytes(tok[4])
+	label := strings.Split(tok[8]+"//", "/")
+	mut, decl, lineKind := label[0], label[1], label[2]
 	env := c30GetEnv(scratch)
 	if env.err != nil {
 		return Result{Out: "SETUP-ERROR", Oracle: "FAIL:setup: " + env.err.Error()}
@@ -278,24 +280,47 @@ func (c30) Run(in string, scratch string) Result {
 		out = "REJECT"
 	}
 	tags := []string{"auth:" + auth, "mode:" + mode, "mut:" + mut, fmt.Sprintf("status:%d", status)}
-	honest := mut == "none"
+	hasTrailer := mode == "ST" || mode == "UT"
+	if hasTrailer {
+		tags = append(tags, "decl:"+decl, "line:"+lineKind)
+	}
+	// does the x-amz-trailer declaration name a checksum this server can compute (case/space-insensitively, anywhere in the list)?
+	declaredKnown := false
+	for _, d := range strings.Split(tname, ",") {
+		if c30Checksum(strings.ToLower(strings.TrimSpace(d)), nil) != "" {
+			declaredKnown = true
+		}
+	}
+	tampered := mut != "none"
+	if hasTrailer {
+		switch lineKind {
+		case "wrong":
+			tampered = true
+		case "missing", "other-algo":
+			tampered = tampered || declaredKnown // a declared checksum must arrive and be verified
+		}
+	}
+	soleDeclared := decl == "exact" || decl == "case" || decl == "pad" || decl == "casepad"
 	var oracle string
 	switch {
-	case honest && out == "STORED P":
+	case !tampered && out == "STORED P":
 		oracle = "OK"
-	case honest:
+	case !tampered && out == "REJECT" && hasTrailer && !soleDeclared && auth == "on":
+		oracle = "-" // unusual declaration (list / unknown algorithm / none) refused as a whole: nothing wrong is stored
+	case !tampered:
 		oracle = "FAIL:well-formed aws-chunked upload: " + out[:min(len(out), 60)] + " instead of the decoded payload"
 	case out == "REJECT":
 		oracle = "OK"
 	default:
-		oracle = "FAIL:tampered/truncated upload (" + mut + ") was not rejected: " + out[:min(len(out), 60)]
+		oracle = "FAIL:tampered/truncated upload (" + tok[8] + ") was not rejected: " + out[:min(len(out), 60)]
 	}
+	eff := strings.ToLower(strings.TrimSpace(tname))
 	if auth != "on" {
 		tags = append(tags, "kf:C30-framing-stored-raw-without-signature-auth")
-	} else if strings.HasPrefix(mut, "cut-") {
+	} else if strings.HasPrefix(mut, "cut-") || mut == "data-no-final" {
 		tags = append(tags, "kf:C30-truncated-body-accepted")
-	} else if mut == "data-no-final" {
-		tags = append(tags, "kf:C30-truncated-body-accepted")
+	} else if hasTrailer && c30Checksum(eff, nil) == "" && !strings.HasPrefix(eff, "x-amz-checksum-") {
+		tags = append(tags, "kf:C30-trailer-checksum-unverified-unless-sole-declared")
 	}
 	return Result{Out: out, Oracle: oracle, Tags: tags}
 }
@@ -379,10 +404,56 @@ func (c30) Gen(r *Rng, tier string, n int) []string {
 			finalSig = fmt.Sprintf("{%d}", len(chunks))
 		}
 		tname, trailer, ck := "", "\r\n", ""
+		traw, decl, lineKind := "", "none", "missing"
 		if hasTrailer {
 			tname = r.Pick(algos)
 			ck = c30Checksum(tname, []byte(payload))
-			trailer = tname + ":" + ck + "\r\n"
+			titled := strings.ReplaceAll(strings.Title(strings.ReplaceAll(tname, "-", " ")), " ", "-") // X-Amz-Checksum-Crc32
+			// the x-amz-trailer declaration
+			switch k := r.Intn(100); {
+			case k < 40:
+				traw, decl = tname, "exact"
+			case k < 52:
+				traw, decl = r.Pick([]string{titled, strings.ToUpper(tname), "x-amz-checksum-" + strings.ToUpper(tname[len("x-amz-checksum-"):])}), "case"
+			case k < 60:
+				traw, decl = r.Pick([]string{" " + tname, tname + "  ", "  " + tname + " "}), "pad"
+			case k < 66:
+				traw, decl = " "+titled+" ", "casepad"
+			case k < 73:
+				traw, decl = tname+r.Pick([]string{",x-amz-meta-note", ", x-amz-meta-note"}), "multi-first"
+			case k < 80:
+				traw, decl = "x-amz-meta-note"+r.Pick([]string{",", ", "})+tname, "multi-last"
+			case k < 88:
+				traw, decl = "", "none"
+			case k < 94:
+				traw, decl = "x-amz-checksum-md5", "unknown"
+			default:
+				traw, decl = "x-amz-meta-note", "other"
+			}
+			// the trailer line itself
+			name, value := tname, ck
+			switch k := r.Intn(100); {
+			case k < 50:
+				lineKind = "ok"
+			case k < 60:
+				lineKind, name = "name-case", r.Pick([]string{titled, strings.ToUpper(tname)})
+			case k < 68:
+				lineKind, name, value = "name-pad", r.Pick([]string{" " + tname + " ", tname + " "}), " "+ck+" "
+			case k < 78:
+				lineKind = "missing"
+			case k < 90:
+				lineKind, value = "wrong", c30Checksum(tname, []byte(payload+"!"))
+			default:
+				other := algos[0]
+				if tname == other {
+					other = algos[1]
+				}
+				lineKind, name, value = "other-algo", other, c30Checksum(other, []byte(payload))
+			}
+			trailer = ""
+			if lineKind != "missing" {
+				trailer = name + ":" + value + "\r\n"
+			}
 			if r.Chance(15) {
 				trailer = "\r\n" + trailer // zero chunk terminated by its own CRLF
 			}
@@ -390,6 +461,8 @@ func (c30) Gen(r *Rng, tier string, n int) []string {
 				trailer += "x-amz-trailer-signature:{t}\r\n"
 			}
 			trailer += "\r\n"
+		} else if r.Chance(6) {
+			traw, decl = r.Pick(algos), "decl-in-no-trailer-mode"
 		}
 		mut := "none"
 		carried := payload
@@ -408,8 +481,11 @@ func (c30) Gen(r *Rng, tier string, n int) []string {
 					muts = append(muts, "sig-replay", "chunk-swap")
 				}
 			}
-			if hasTrailer {
-				muts = append(muts, "ck-bad", "ck-name", "data-flip-ck", "data-no-final")
+			if hasTrailer && lineKind != "missing" {
+				muts = append(muts, "data-flip-ck", "data-no-final")
+			}
+			if signed && len(chunks) > 0 {
+				muts = append(muts, "forged-terminator", "forged-terminator")
 			}
 			if mode == "ST" {
 				muts = append(muts, "tsig-bad", "tsig-missing")
@@ -512,14 +588,15 @@ func (c30) Gen(r *Rng, tier string, n int) []string {
 				}
 				chunks[j], chunks[j+1] = chunks[j+1], chunks[j]
 				chunks[j].sig, chunks[j+1].sig = fmt.Sprintf("{x%d}", j), fmt.Sprintf("{x%d}", j+1)
-			case "ck-bad":
-				trailer = strings.Replace(trailer, ck, c30Checksum(tname, []byte(payload+"!")), 1)
-			case "ck-name":
-				other := algos[0]
-				if tname == other {
-					other = algos[1]
+			case "forged-terminator":
+				// the body is cut at a chunk boundary and closed with a terminator the attacker cannot sign
+				keep := r.Intn(len(chunks))
+				chunks = chunks[:keep]
+				forged := []string{"{bad}", fmt.Sprintf("{x%d}", keep), ""}
+				if keep > 0 {
+					forged = append(forged, "{0}", fmt.Sprintf("{%d}", keep-1))
 				}
-				trailer = strings.Replace(trailer, tname+":", other+":", 1)
+				finalSig = r.Pick(forged)
 			case "tsig-bad":
 				trailer = strings.Replace(trailer, "{t}", "{bad}", 1)
 			case "tsig-missing":
@@ -531,9 +608,9 @@ func (c30) Gen(r *Rng, tier string, n int) []string {
 			}
 			carried = cb.String()
 		}
-		if mut == "none-unprotected" || (mut == "data-flip" && !signed) || (mut == "len-short" && false) {
-			// a flipped byte in a mode without chunk signatures is only caught by the trailer checksum
-			if !hasTrailer {
+		if mut == "none-unprotected" || (strings.HasPrefix(mut, "data-") && !signed) {
+			// a flipped byte in a mode without chunk signatures is only caught by a trailer checksum line
+			if !hasTrailer || lineKind == "missing" {
 				continue
 			}
 		}
@@ -543,12 +620,10 @@ func (c30) Gen(r *Rng, tier string, n int) []string {
 		for i := range exp {
 			exp[i] = fmt.Sprintf("{%d}", i)
 		}
-		expCk := ""
-		if hasTrailer {
-			expCk = c30Checksum(tname, []byte(carried))
-		}
+		// the checksum the server's hasher (chosen by the declaration) yields for the carried data
+		expCk := c30Checksum(strings.ToLower(strings.TrimSpace(traw)), []byte(carried))
 		_ = binary.BigEndian
-		cases = append(cases, strings.Join([]string{auth, mode, tokBytes(tname), tokBytes(body), tokBytes(payload), tokList(exp), tokBytes("{t}"), tokBytes(expCk), mut}, " "))
+		cases = append(cases, strings.Join([]string{auth, mode, tokBytes(traw), tokBytes(body), tokBytes(payload), tokList(exp), tokBytes("{t}"), tokBytes(expCk), mut + "/" + decl + "/" + lineKind}, " "))
 	}
 	return cases
 }
